@@ -23,7 +23,8 @@ def list_units():
             "c_cache_single_store": {"props": ["C18"], "tier": "quick", "doc": run_c_cache_single_store.__doc__},
             "c_pointer_casts": {"props": ["C07"], "tier": "quick", "doc": run_c_pointer_casts.__doc__},
             "c_statics": {"props": ["C18", "C08"], "tier": "quick", "doc": run_c_statics.__doc__},
-            "tbb_seam": {"props": ["C08"], "tier": "quick", "doc": run_tbb_seam.__doc__}}
+            "tbb_seam": {"props": ["C08"], "tier": "quick", "doc": run_tbb_seam.__doc__},
+            "hash_serde_derive": {"props": ["C14"], "tier": "quick", "doc": run_hash_serde_derive.__doc__}}
 
 
 def _sha(path):
@@ -392,7 +393,59 @@ def run_tbb_seam():
     return res
 
 
+def run_hash_serde_derive():
+    """serde clause of C14 ("conversions through serde are lossless"): the Serialize / Deserialize impls of `Hash` are
+    macro-generated and outside the contracts; what is ASSUMED is serde_derive's behaviour for a newtype over
+    [u8; 32] (a 32-element tuple; the byte-string form through serde's array impl in self-describing formats). This
+    guard pins that assumption to the source: `pub struct Hash([u8; OUT_LEN])` still carries
+    `#[cfg_attr(feature = "serde", derive(serde::Deserialize, serde::Serialize))]` and there is no hand-written
+    `impl ... Serialize/Deserialize ... for Hash`. Otherwise undecided, with a suspect obligation decided by the
+    directed search (serde_json arrays and CBOR arrays / byte strings of 0..64 bytes through the real impls)."""
+    import re
+    import sys
+    sys.path.insert(0, os.path.join(common.VERIF, "lib"))
+    import rstok
+    res = new_result("guard:hash_serde_derive", "guard", level="proof")
+    path = os.path.join(common.REPO, "src", "lib.rs")
+    res["cmd"] = "token scan of src/lib.rs for the serde impls of Hash"
+    try:
+        toks = [t for t in rstok.tokenize(open(path, encoding="utf-8").read()) if t.k not in ("ws", "comment")]
+    except Exception as e:
+        res["undecided_reason"] = "cannot tokenize src/lib.rs: %s" % e
+        return res
+    text = " ".join(t.s for t in toks).replace(": :", "::")
+    res["obligations"] = 2
+    why = []
+    m = re.search(r"((?:# \[ [^\]]*? \] )*)pub struct Hash \( \[ u8 ; OUT_LEN \] \) ;", text)
+    if not m:
+        why.append("`pub struct Hash([u8; OUT_LEN]);` not found (shape of the type changed)")
+    elif not re.search(r"cfg_attr \( feature = \"serde\" , derive \( serde :: Deserialize , serde :: Serialize \) \)", m.group(1)):
+        why.append("the serde derives are no longer on `Hash`")
+    else:
+        res["discharged"] += 1
+    manual = re.findall(r"impl (?:< [^>]* > )?(?:serde :: )?(?:Serialize|Deserialize)(?: < [^>]* >)? for Hash\b", text)
+    if manual:
+        why.append("hand-written serde impl(s) for Hash: %s" % manual[:2])
+    else:
+        res["discharged"] += 1
+    res["functions_verified"] = ["crate::Hash: serde impls are the derived ones (src/lib.rs)"]
+    res["trusted_base"] = ["serde_derive / serde's [T; N] impls behave as documented (tuple of 32 u8; byte strings accepted "
+                           "through the sequence visitor in self-describing formats)"]
+    res["samples"] = [{"obligation": "Hash keeps #[cfg_attr(feature = \"serde\", derive(serde::Deserialize, serde::Serialize))]; "
+                                     "no manual impl"}]
+    if not why:
+        res["status"] = "pass"
+        return res
+    res["undecided_reason"] = "assumption about the serde impls of Hash lost: " + "; ".join(why)
+    fo = failed_obligation("crate::Hash::Deserialize__deserialize", "other", "; ".join(why)[:300], location="src/lib.rs")
+    fo["families"] = ["serde", "hex"]
+    res["suspect"] = [fo]
+    return res
+
+
 def run_unit(name, tier="quick"):
+    if name == "hash_serde_derive":
+        return run_hash_serde_derive()
     if name == "c_statics":
         return run_c_statics()
     if name == "tbb_seam":
